@@ -331,7 +331,7 @@ func c08Run(co *caseOut, in c08Input) {
 	var coqSteps []string
 	events := map[string]bool{}
 	prev, prevKeys := []int{}, []int{}
-	oomOracle := map[uint64]bool{} // oracle ids of responses refused with ErrOOM so far
+	oomOracle := map[uint64]bool{} // oracle ids whose latest response was refused with ErrOOM and none pooled since
 	diag := ""
 	for _, op := range in.Ops {
 		var res, coqOp string
@@ -488,8 +488,12 @@ func c08Run(co *caseOut, in c08Input) {
 		// branch events
 		if op.Op == "add" {
 			events[res] = true
-			if res == "EOOM" && in.Txs[op.I].Oracle != nil {
-				oomOracle[*in.Txs[op.I].Oracle] = true
+			if o := in.Txs[op.I].Oracle; o != nil {
+				if res == "EOOM" {
+					oomOracle[*o] = true
+				} else if res == "ok" {
+					delete(oomOracle, *o) // a pooled response legitimately owns the id again
+				}
 			}
 			if res == "ok" && len(ids) <= len(prev) {
 				events["replaced"] = true
@@ -572,9 +576,9 @@ func c08Gen(r *rng, thorough bool) c08Input {
 	if thorough {
 		ntx = 5 + r.intn(14)
 	}
-	nets := []int64{0, 100, 100, 200, 200, 300, 400, 500, 800}
+	nets := []int64{0, 100, 200, 200, 300, 400, 400, 500, 800, 1200}
 	syss := []int64{0, 0, 50, 100}
-	sizeChoices := []int{100, 100, 200}
+	sizeChoices := []int{200, 200, 400}
 	for i := 0; i < ntx; i++ {
 		var d c08Tx
 		if r.chance(pNotary) {
